@@ -976,11 +976,16 @@ def HV.hasId : HV → Bool
 
 def allHaveId (l : List HV) : Bool := l.all HV.hasId
 
-/-- stages that only build new lists / new top-level documents: no in-place write at all -/
+/-- stages that write into no object that existed before the stage: they build new lists and new
+    documents (`$addFields/$set` included: every level of a dotted name is a new object).  What
+    is left out: `$lookup` (writes `doc[as]` into its input), `$out`, and `$facet` -/
 def Stage.pure : Stage → Bool
-  | .select .. | .project .. | .unwind .. | .replaceRoot .. | .count .. => true
+  | .select .. | .sample .. | .addFields .. | .project .. | .unwind .. | .replaceRoot .. | .count .. => true
   | _ => false
 
+def pureStages (ss : List Stage) : Bool := ss.all Stage.pure
+
+def pureBranches (bs : List (String × List Stage)) : Bool := bs.all (fun b => pureStages b.2)
 
 mutual
   def Stage.noOut : Stage → Bool
